@@ -507,6 +507,9 @@ pub enum Leaf {
     Raw(BitsSpec),
     /// (width - 1, items)
     Int(u8, Vec<u64>),
+    /// vectors left behind by an operation history (pops, resizes, ...): same logical content as a fresh vector, different past
+    RawHist(Vec<crate::props::c05::RawOp>),
+    IntHist(Vec<crate::props::c05::IntOp>),
     /// bits, support mask (1 rank, 2 select, 4 select_zero)
     BV(BitsSpec, u8),
     RS(BitsSpec),
@@ -583,6 +586,8 @@ impl ValSpec {
             Leaf::Str(s) => wrap(s.clone(), o),
             Leaf::Raw(b) => wrap(raw_from_bits(&b.expand()), o),
             Leaf::Int(w, items) => wrap(int_from(*w as usize % 64 + 1, items), o),
+            Leaf::RawHist(ops) => wrap(crate::props::c05::raw_by_history(ops).unwrap_or_else(|f| panic!("operation history failed: {}", f.msg)).0, o),
+            Leaf::IntHist(ops) => wrap(crate::props::c05::int_by_history(ops).unwrap_or_else(|f| panic!("operation history failed: {}", f.msg)).0, o),
             Leaf::BV(b, mask) => {
                 let mut bv = BitVector::from(raw_from_bits(&b.expand()));
                 if mask & 1 != 0 {
@@ -659,6 +664,8 @@ impl ValSpec {
             Leaf::Str(_) => "String",
             Leaf::Raw(_) => "RawVector",
             Leaf::Int(_, _) => "IntVector",
+            Leaf::RawHist(_) => "RawVector(history)",
+            Leaf::IntHist(_) => "IntVector(history)",
             Leaf::BV(_, m) => return format!("{}BitVector[supports={}]", ["", "None:", "Some:", "SomeNone:", "SomeSome:"][self.opt as usize % 5], m & 7),
             Leaf::RS(_) => "RankSupport",
             Leaf::SS(_) => "SelectSupport<Identity>",
@@ -675,7 +682,7 @@ impl ValSpec {
 
     /// only the kinds that have a memory-mapped counterpart
     pub fn is_mappable(&self) -> bool {
-        matches!(self.leaf, Leaf::VecU64(_) | Leaf::VecUsize(_) | Leaf::VecPair(_) | Leaf::Bytes(_) | Leaf::Str(_) | Leaf::Raw(_) | Leaf::Int(_, _)) && self.opt % 5 <= 2
+        matches!(self.leaf, Leaf::VecU64(_) | Leaf::VecUsize(_) | Leaf::VecPair(_) | Leaf::Bytes(_) | Leaf::Str(_) | Leaf::Raw(_) | Leaf::Int(_, _) | Leaf::RawHist(_) | Leaf::IntHist(_)) && self.opt % 5 <= 2
     }
 }
 
@@ -728,6 +735,8 @@ pub fn leaf(max_bits: usize) -> BoxedStrategy<Leaf> {
         3 => small_string().prop_map(Leaf::Str),
         3 => bits.clone().prop_map(Leaf::Raw),
         3 => (any::<u8>(), proptest::collection::vec(any::<u64>(), 0..80)).prop_map(|(w, v)| Leaf::Int(w, v)),
+        2 => proptest::collection::vec(crate::props::c05::raw_op(), 0..40).prop_map(Leaf::RawHist),
+        2 => proptest::collection::vec(crate::props::c05::int_op(), 0..40).prop_map(Leaf::IntHist),
         6 => (bits.clone(), 0u8..8).prop_map(|(b, m)| Leaf::BV(b, m)),
         1 => bits.clone().prop_map(Leaf::RS),
         1 => bits.clone().prop_map(Leaf::SS),
@@ -758,6 +767,8 @@ pub fn mappable_spec(max_bits: usize) -> BoxedStrategy<ValSpec> {
         3 => small_string().prop_map(Leaf::Str),
         3 => bits.prop_map(Leaf::Raw),
         3 => (any::<u8>(), proptest::collection::vec(any::<u64>(), 0..80)).prop_map(|(w, v)| Leaf::Int(w, v)),
+        2 => proptest::collection::vec(crate::props::c05::raw_op(), 0..40).prop_map(Leaf::RawHist),
+        2 => proptest::collection::vec(crate::props::c05::int_op(), 0..40).prop_map(Leaf::IntHist),
     ];
     (leaf, prop_oneof![5 => Just(0u8), 2 => Just(1u8), 3 => Just(2u8)]).prop_map(|(leaf, opt)| ValSpec { leaf, opt }).boxed()
 }
